@@ -793,6 +793,11 @@ pub mod verif {
   use samlang_heap::ModuleReference;
   use std::collections::{HashMap, HashSet};
 
+  /// `ast_differ::list_differ::compute(old, new)` on lists of integers.
+  pub fn list_diff(old_list: &[i64], new_list: &[i64]) -> Vec<(&'static str, i32, Vec<String>)> {
+    super::ast_differ::verif::list_diff(old_list, new_list, &|x| x.to_string())
+  }
+
   /// `DependencyGraph::new(sources).affected_set(dirty)`
   pub fn affected_set(
     sources: &HashMap<ModuleReference, Module<()>>,
